@@ -33,8 +33,25 @@ Definition init_pyx (assort file : bool) :=
 Definition weight_pyx (wint : bool) := if wint then "numpy.int_t" else "numpy.float_t".
 Definition expected_pyx (wint directed assort file : bool) : list string :=
   [dir_name directed; tensor_pyx assort; init_pyx assort file; "vertex_t"; weight_pyx wint].
-Definition expected_pyx_args (wint : bool) : list string :=
-  ["< const vector[vertex_t] & > edges_start"; "< const vector[vertex_t] & > edges_end";
-   "< const vector[" ++ weight_pyx wint ++ "] & > edges_weights";
-   "nof_realizations"; "max_nof_iterations"; "nof_convergences"; "labels"; "c_u"; "c_v"; "c_affinity"; "deref(rng)"].
-
+(* what each positional argument of the library call must BE (recognised by value by the simulator tools/pyxsim.py):
+   the two label columns and the weight columns of the adjacency data converted to the weight type named by the arguments,
+   the three scalars in the library's order, a label vector and an out-membership matrix of N x K, an in-membership matrix
+   that is N x K exactly for directed runs (0 x 0 otherwise), the affinity vector (zeros of the model's size, or the file's
+   values laid out for the model), and a generator seeded with the user's seed *)
+Definition weight_kind (wint : bool) := if wint then "int" else "float".
+Definition expected_affinity_arg (assort file : bool) : string :=
+  if file then
+    (if assort then "affinity file: the K values of each layer via vector[numpy.float_t]"
+     else "affinity file: each layer as a K x K diagonal block via vector[numpy.float_t]")
+  else
+    (if assort then "zero vector of size nof_groups*nof_layers : vector[numpy.float_t]"
+     else "zero vector of size nof_groups*nof_groups*nof_layers : vector[numpy.float_t]").
+Definition expected_pyx_args (wint directed assort file : bool) : list string :=
+  ["adjacency column 0 (int) via vector[vertex_t]"; "adjacency column 1 (int) via vector[vertex_t]";
+   "adjacency weight columns, record by record (" ++ weight_kind wint ++ ") via vector[" ++ weight_pyx wint ++ "]";
+   "nof_realizations"; "max_nof_iterations"; "nof_convergences";
+   "zero vector of size nof_vertices : vector[vertex_t]";
+   "matrix nof_vertices x nof_groups";
+   (if directed then "matrix nof_vertices x nof_groups" else "matrix 0 x 0");
+   expected_affinity_arg assort file;
+   "RandomGenerator[mt19937, uniform_real_distribution](seed)"].
